@@ -141,6 +141,13 @@ func (e *Enc) Encode() (err error) {
 	for _, b := range order {
 		e.processBlock(b)
 	}
+	if e.caseVals == nil && !e.caseRest {
+		for _, k := range sortedKeys(e.clauseSeen) {
+			if !e.clauseSeen[k] {
+				return fmt.Errorf("contract error in %s: clause %q names an identifier that is defined on no path where the clause applies", funcName(fn), k)
+			}
+		}
+	}
 	return nil
 }
 
